@@ -230,13 +230,14 @@ def observe_case(case, T, ongrid, tlc_hist=None):
     return ev, info
 
 
-def iterative_case(rnd, T=8):
+def iterative_case(rnd, T=8, slow=None):
     """the bundled hand-coded iterative SIM against the closed form"""
     from sfc_models.gl_book.model_SIM_iterative import ModelSIMiterative
     a1 = Fraction(rnd.randint(30, 90), 100)
     a2 = Fraction(rnd.randint(5, 60), 100)
     th = Fraction(rnd.randint(5, 50), 100)
-    if rnd.random() < 0.35:
+    draw = rnd.random()
+    if (draw < 0.35) if slow is None else slow:
         # the slow corner: a high propensity to consume with a low tax rate (the sweep contracts by q = a1*(1-theta)
         # close to 1 and needs hundreds of sweeps per period)
         a1 = Fraction(rnd.randint(90, 98), 100)
@@ -395,7 +396,7 @@ def run(rep):
         infos.append((case, info))
         rep.add_case({'kind': kind, 'case': case, 'T': T}, ev['built'])
     for i in range(n_iter):
-        ev, info = iterative_case(rnd)
+        ev, info = iterative_case(rnd, slow=(i % 3 == 0))     # every third case sits in the slow corner
         traces.append((len(traces), [ev]))
         infos.append((info.get('case', {}), info))
         rep.add_case({'kind': 'iterative', 'case': info.get('case')}, True)
